@@ -148,9 +148,23 @@ def run_case(ctx, case):
     def sweep(phase):
         for q in queries:
             exists = os.path.exists(q)
-            for mode in ("abs", "rel-root", "cwd", "rel-parent"):
+            for mode in ("abs", "rel-root", "cwd", "rel-parent", "abs-dotdot", "rel-dotdot"):
                 if mode == "abs":
                     arg, base = q, None
+                elif mode in ("abs-dotdot", "rel-dotdot"):
+                    # the same directory reached by climbing out of one of its sub-directories
+                    if not exists or not os.path.isdir(q) or os.path.realpath(q) != q:
+                        continue
+                    kids = sorted(d for d in os.listdir(q) if os.path.isdir(os.path.join(q, d))
+                                  and not os.path.islink(os.path.join(q, d)))
+                    if not kids:
+                        continue
+                    kid = kids[len(q) % len(kids)]
+                    if mode == "abs-dotdot":
+                        arg, base = os.path.join(q, kid, os.pardir), None
+                    else:
+                        os.chdir(os.path.join(q, kid))
+                        arg, base = os.pardir, os.getcwd()
                 elif mode == "rel-root":
                     os.chdir(root)
                     arg, base = os.path.relpath(q, root), root
